@@ -11,9 +11,10 @@
                                        rendered file, reports the revision's root, binds every written identifier
                                        to its canonical value and defines nothing else.
 
-  FULL statement (not proved): the same for every `Rev` (values of any shape, stream objects).  Proved here
-  (`_partial`): objects `Body.val v v` with `v` a well-formed SCALAR (keyword, integer, real, name, string,
-  reference: `C02.encSimple`, because `spell ⇒ Spells` is proved for scalars only), `lay.kind = 0`, no offset
+  FULL statement (not proved): the same for every `Rev`.  Proved here (`_partial`; generalised by follow-up C03e - see
+  Props/C03RenderDeep.lean): objects `Body.val (canon s) s` with `s` ANY value of the encoder's domain `wfDeep` (arrays
+  and dictionaries of any nesting, entries in any order; `C02.spell_is_Spells`) and stream objects `Body.stm` with a direct
+  /Length (`LoaderE2E.SimpleObj`; referenced /Length: Props/C03RenderFwd.lean), `lay.kind = 0`, no offset
   swap / relabelling (those produce ill-formed files on purpose).  Unrestricted: all choice streams, paddings
   (any white-space / comment run), `ofsAtPad`, subsection cuts, header widths, entry terminators, dictionary
   rotation, free entries, object 0, garbage, binary comment.  Size hypotheses: file shorter than 10^10 bytes,
@@ -24,7 +25,9 @@ namespace Parsley.C03
 open Parsley Parsley.Prim Parsley.Obj Parsley.Indirect Parsley.Loader Parsley.C02 Parsley.Spelling Parsley.LoaderE2E
 open Parsley.DocSpec
 
-/-- **renderHistory_classic_wf_partial** (the link generator → declarative layout). -/
+/-- **renderHistory_classic_wf_partial** (the link generator → declarative layout).  The objects of the layout are the
+    revision's objects as written (`pieceOf`); for plain values the pair (identifier, value) does not depend on the
+    position. -/
 theorem renderHistory_classic_wf_partial (garbage : Bytes) (binary : Bool) (r : Rev)
     (hg : NoMagic garbage) (h : SimpleRev r)
     (hlen : (renderHistory garbage binary [(r, .auto)]).1.length < 10 ^ 10) :
@@ -32,11 +35,31 @@ theorem renderHistory_classic_wf_partial (garbage : Bytes) (binary : Bool) (r : 
       f.bytes = (renderHistory garbage binary [(r, .auto)]).1 ∧ f.WF D r.root ∧
       (renderHistory garbage binary [(r, .auto)]).2.2.2 =
         [⟨f.objs.map (fun q => ((q.1.num, q.1.gen), (q.1.val q.2).val)), r.frees.map Prod.fst, r.root⟩] ∧
-      f.objs.map (fun q => ((q.1.num, q.1.gen), (q.1.val q.2).val)) = r.objs.map (fun o : DObj => ((o.num, o.gen), LoaderE2E.valOf o)) :=
+      ((∀ o ∈ r.objs, isVal o = true) →
+        f.objs.map (fun q => ((q.1.num, q.1.gen), (q.1.val q.2).val)) = r.objs.map (fun o : DObj => ((o.num, o.gen), LoaderE2E.valOf o))) ∧
+      f.objs.map Prod.fst = r.objs.map pieceOf :=
   render_is_classic garbage binary r hg h hlen
 
+/-- the layout's pieces are the revision's objects: identifiers -/
+theorem pieces_keys (r : Rev) (hobjs : ∀ o ∈ r.objs, SimpleObj o) (l : List (Piece × Nat)) (hl : l.map Prod.fst = r.objs.map pieceOf) :
+    l.map (fun q => (q.1.num, q.1.gen)) = r.objs.map (fun o : DObj => (o.num, o.gen)) := by
+  have : l.map (fun q => (q.1.num, q.1.gen)) = (l.map Prod.fst).map (fun p : Piece => (p.num, p.gen)) := by
+    rw [List.map_map]; rfl
+  rw [this, hl, List.map_map]
+  apply List.map_congr_left
+  intro o ho
+  show ((pieceOf o).num, (pieceOf o).gen) = _
+  rw [pieceOf_num o (hobjs o ho), pieceOf_gen o (hobjs o ho)]
+
+/-- every object of the revision is one of the layout's pieces, at some offset -/
+theorem piece_mem (r : Rev) (l : List (Piece × Nat)) (hl : l.map Prod.fst = r.objs.map pieceOf) (o : DObj) (ho : o ∈ r.objs) :
+    ∃ i, (pieceOf o, i) ∈ l := by
+  have : pieceOf o ∈ l.map Prod.fst := by rw [hl]; exact List.mem_map_of_mem ho
+  obtain ⟨q, hq, hqe⟩ := List.mem_map.mp this
+  exact ⟨q.2, by rw [← hqe]; exact hq⟩
+
 /-- **render_classic_loads_partial**: the loader model on the rendered file: accepted, the revision's root, every
-    written identifier bound to its canonical value, nothing else defined.  `said` is what the encoder reports
+    written identifier bound to its value, nothing else defined.  `said` is what the encoder reports
     next to the bytes (the input of the oracle `DocSpec.resolve`). -/
 theorem render_classic_loads_partial (garbage : Bytes) (binary : Bool) (r : Rev)
     (hg : NoMagic garbage) (h : SimpleRev r)
@@ -44,13 +67,17 @@ theorem render_classic_loads_partial (garbage : Bytes) (binary : Bool) (r : Rev)
     ∃ (L : Loaded) (said : Said),
       (renderHistory garbage binary [(r, .auto)]).2.2.2 = [said] ∧
       said.root = r.root ∧ said.freed = r.frees.map Prod.fst ∧
-      said.written = r.objs.map (fun o : DObj => ((o.num, o.gen), LoaderE2E.valOf o)) ∧
+      said.written.map Prod.fst = r.objs.map (fun o : DObj => (o.num, o.gen)) ∧
+      ((∀ o ∈ r.objs, isVal o = true) → said.written = r.objs.map (fun o : DObj => ((o.num, o.gen), LoaderE2E.valOf o))) ∧
       parseData (renderHistory garbage binary [(r, .auto)]).1 = .ok L ∧ L.root = r.root ∧
       (∀ e ∈ said.written, ObjStm.defsGet e.1 L.defs = some e.2) ∧
       (∀ k, (∀ e ∈ said.written, e.1 ≠ k) → ObjStm.defsGet k L.defs = none) := by
-  obtain ⟨f, D, hb, hwf, hsaid, hw⟩ := render_is_classic garbage binary r hg h hlen
+  obtain ⟨f, D, hb, hwf, hsaid, hw, hp5⟩ := render_is_classic garbage binary r hg h hlen
   obtain ⟨L, hp, hr, hdef, hundef⟩ := load_classic f D r.root hwf
-  refine ⟨L, _, hsaid, rfl, rfl, hw, by rw [← hb]; exact hp, hr, ?_, ?_⟩
+  refine ⟨L, _, hsaid, rfl, rfl, ?_, hw, by rw [← hb]; exact hp, hr, ?_, ?_⟩
+  · show (f.objs.map (fun q => ((q.1.num, q.1.gen), (q.1.val q.2).val))).map Prod.fst = _
+    rw [List.map_map]
+    exact pieces_keys r h.objs f.objs hp5
   · intro e he
     obtain ⟨q, hq, rfl⟩ := List.mem_map.mp he
     exact hdef q hq
@@ -59,23 +86,42 @@ theorem render_classic_loads_partial (garbage : Bytes) (binary : Bool) (r : Rev)
     intro q hq
     exact hk _ (List.mem_map_of_mem (f := fun q : Piece × Nat => ((q.1.num, q.1.gen), (q.1.val q.2).val)) hq)
 
-/-- in the terms of the revision: every object `n g obj v endobj` the revision writes is bound to `v` -/
+/-- in the terms of the revision: every object `n g obj v endobj` the revision writes is bound to `v`, every stream object
+    `n g obj << entries + /Length >> stream data endstream endobj` to the stream value with the entries as a sorted map and
+    a content descriptor holding the data; nothing else is defined -/
 theorem render_classic_binds_partial (garbage : Bytes) (binary : Bool) (r : Rev)
     (hg : NoMagic garbage) (h : SimpleRev r)
     (hlen : (renderHistory garbage binary [(r, .auto)]).1.length < 10 ^ 10) :
     ∃ L : Loaded, parseData (renderHistory garbage binary [(r, .auto)]).1 = .ok L ∧ L.root = r.root ∧
-      (∀ o ∈ r.objs, ∀ v, o.body = .val v v → ObjStm.defsGet (o.num, o.gen) L.defs = some v) ∧
+      (∀ o ∈ r.objs, ∀ c s, o.body = .val c s → ObjStm.defsGet (o.num, o.gen) L.defs = some c) ∧
+      (∀ o ∈ r.objs, ∀ entries data, o.body = .stm entries data → ∃ start,
+        ObjStm.defsGet (o.num, o.gen) L.defs =
+          some (.stream (DocSpec.canonKvs (streamEntries o entries data.length)) ⟨start, data.length, data⟩)) ∧
       (∀ k, (∀ o ∈ r.objs, (o.num, o.gen) ≠ k) → ObjStm.defsGet k L.defs = none) := by
-  obtain ⟨L, said, _, _, _, hw, hp, hr, hdef, hundef⟩ := render_classic_loads_partial garbage binary r hg h hlen
-  refine ⟨L, hp, hr, ?_, ?_⟩
-  · intro o ho v hv
-    have := hdef ((o.num, o.gen), LoaderE2E.valOf o) (by rw [hw]; exact List.mem_map_of_mem (f := fun o : DObj => ((o.num, o.gen), LoaderE2E.valOf o)) ho)
-    simpa [LoaderE2E.valOf, hv] using this
+  obtain ⟨f, D, hb, hwf, hsaid, hw, hp5⟩ := render_is_classic garbage binary r hg h hlen
+  obtain ⟨L, hp, hr, hdef, hundef⟩ := load_classic f D r.root hwf
+  have hbind : ∀ o ∈ r.objs, ∃ i, ObjStm.defsGet (o.num, o.gen) L.defs = some ((pieceOf o).val i).val := by
+    intro o ho
+    obtain ⟨i, hi⟩ := piece_mem r f.objs hp5 o ho
+    have := hdef _ hi
+    rw [pieceOf_num o (h.objs o ho), pieceOf_gen o (h.objs o ho)] at this
+    exact ⟨i, this⟩
+  refine ⟨L, by rw [← hb]; exact hp, hr, ?_, ?_, ?_⟩
+  · intro o ho c s hv
+    obtain ⟨i, hi⟩ := hbind o ho
+    rw [hi, pieceOf_val o i (by simp [isVal, hv])]
+    simp [LoaderE2E.valOf, hv]
+  · intro o ho entries data hv
+    obtain ⟨i, hi⟩ := hbind o ho
+    obtain ⟨start, hst⟩ := pieceOf_val_stm o i entries data hv
+    exact ⟨start, by rw [hi, hst]⟩
   · intro k hk
     apply hundef k
-    intro e he
-    rw [hw] at he
-    obtain ⟨o, ho, rfl⟩ := List.mem_map.mp he
+    intro q hq
+    have hm : (q.1.num, q.1.gen) ∈ f.objs.map (fun q => (q.1.num, q.1.gen)) := List.mem_map_of_mem (f := fun q : Piece × Nat => (q.1.num, q.1.gen)) hq
+    rw [pieces_keys r h.objs f.objs hp5] at hm
+    obtain ⟨o, ho, hoe⟩ := List.mem_map.mp hm
+    rw [← hoe]
     exact hk o ho
 
 /-! ## non-vacuity: a concrete revision (two scalar objects, one free entry, object 0, garbage, binary comment) -/
@@ -102,8 +148,8 @@ theorem exRev_simple : SimpleRev exRev where
     intro o ho
     simp only [exRev, List.mem_cons, List.mem_nil_iff, or_false] at ho
     rcases ho with rfl | rfl
-    · exact ⟨wsRun_of_ws _ (by decide), by decide, by decide, .int 7, rfl, by simp [wf], trivial⟩
-    · exact ⟨wsRun_of_ws _ (by decide), by decide, by decide, .name [67, 97, 116], rfl, by simp [wf, okKey], trivial⟩
+    · exact SimpleObj.of_scalar (wsRun_of_ws _ (by decide)) (by decide) (by decide) (.int 7) rfl (by simp [wf]) trivial
+    · exact SimpleObj.of_scalar (wsRun_of_ws _ (by decide)) (by decide) (by decide) (.name [67, 97, 116]) rfl (by simp [wf, okKey]) trivial
   objsNe := by simp [exRev]
   gens := by decide
   freeGens := by decide
@@ -117,18 +163,18 @@ theorem exGarbage_noMagic : NoMagic [106, 117, 110, 107, 10] := noMagic_of_no_pe
 example : ∃ L : Loaded, parseData (renderHistory [106, 117, 110, 107, 10] true [(exRev, .auto)]).1 = .ok L ∧ L.root = (2, 0) ∧
     ObjStm.defsGet (1, 0) L.defs = some (.int 7) ∧ ObjStm.defsGet (2, 0) L.defs = some (.name [67, 97, 116]) ∧
     ObjStm.defsGet (3, 1) L.defs = none ∧ ObjStm.defsGet (0, 65535) L.defs = none := by
-  obtain ⟨L, hp, hr, hdef, hundef⟩ := render_classic_binds_partial [106, 117, 110, 107, 10] true exRev exGarbage_noMagic
+  obtain ⟨L, hp, hr, hdef, _, hundef⟩ := render_classic_binds_partial [106, 117, 110, 107, 10] true exRev exGarbage_noMagic
     exRev_simple (by decide +kernel)
   refine ⟨L, hp, hr, ?_, ?_, ?_, ?_⟩
-  · exact hdef _ List.mem_cons_self (.int 7) rfl
-  · exact hdef _ (List.mem_cons_of_mem _ List.mem_cons_self) (.name [67, 97, 116]) rfl
+  · exact hdef _ List.mem_cons_self (.int 7) (.int 7) rfl
+  · exact hdef _ (List.mem_cons_of_mem _ List.mem_cons_self) (.name [67, 97, 116]) (.name [67, 97, 116]) rfl
   · apply hundef; decide
   · apply hundef; decide
 
 /-- the hypotheses of the link are satisfiable: the rendered example file is a well-formed `ClassicFile` -/
 example : ∃ (f : ClassicFile) (D : List (Bytes × Obj)),
     f.bytes = (renderHistory [106, 117, 110, 107, 10] true [(exRev, .auto)]).1 ∧ f.WF D (2, 0) ∧ f.objs.length = 2 := by
-  obtain ⟨f, D, hb, hwf, _, hw⟩ := renderHistory_classic_wf_partial [106, 117, 110, 107, 10] true exRev exGarbage_noMagic
+  obtain ⟨f, D, hb, hwf, _, _, hw⟩ := renderHistory_classic_wf_partial [106, 117, 110, 107, 10] true exRev exGarbage_noMagic
     exRev_simple (by decide +kernel)
   refine ⟨f, D, hb, hwf, ?_⟩
   have := congrArg List.length hw
@@ -138,8 +184,8 @@ example : ∃ (L : Loaded) (said : Said), (renderHistory [106, 117, 110, 107, 10
     said.written = [((1, 0), .int 7), ((2, 0), .name [67, 97, 116])] ∧
     parseData (renderHistory [106, 117, 110, 107, 10] true [(exRev, .auto)]).1 = .ok L ∧
     (∀ e ∈ said.written, ObjStm.defsGet e.1 L.defs = some e.2) := by
-  obtain ⟨L, said, h1, _, _, h4, h5, _, h7, _⟩ := render_classic_loads_partial [106, 117, 110, 107, 10] true exRev
+  obtain ⟨L, said, h1, _, _, _, h4, h5, _, h7, _⟩ := render_classic_loads_partial [106, 117, 110, 107, 10] true exRev
     exGarbage_noMagic exRev_simple (by decide +kernel)
-  exact ⟨L, said, h1, by rw [h4]; rfl, h5, h7⟩
+  exact ⟨L, said, h1, by rw [h4 (by decide)]; rfl, h5, h7⟩
 
 end Parsley.C03
